@@ -115,7 +115,7 @@ func (e *c06Env) close() {
 var _ net.Conn
 
 func c06Ops() []string {
-	return []string{"set", "set", "add", "add", "replace", "replace", "append", "prepend", "delete", "delete", "touch", "touch", "get", "get", "mget", "mget", "gat", "gat"}
+	return []string{"set", "set", "add", "add", "replace", "replace", "append", "prepend", "delete", "delete", "touch", "touch", "get", "get", "mget", "mget", "gat", "gat", "setq", "setq", "setq"}
 }
 
 // mixQuiet turns a generated multi-get into one with duplicate keys and mixed quiet flags
@@ -154,7 +154,7 @@ func childC06(args []string) int {
 		for si := 0; si < nseq; si++ {
 			keys := []string{fmt.Sprintf("s%d.a", si), fmt.Sprintf("s%d.b", si), fmt.Sprintf("s%d.c", si)}
 			o := genOpts{Binary: true, Keys: keys, MinLen: 10, MaxLen: 30, TTLs: []string{"0", "1000", "abs-future", "abs-past"}, T0: env.st.T0(),
-				AllowGat: true, AllowMulti: true, ValueLens: []int{0, 1, 20, 1500, 70000}, Ops: c06Ops()}
+				AllowGat: true, AllowMulti: true, AllowQuiet: true, ValueLens: []int{0, 1, 20, 1500, 70000}, Ops: c06Ops()}
 			cmds := g.sequence(o)
 			for j := range cmds {
 				if cmds[j].Op == "get" && g.rng.Intn(4) == 0 {
